@@ -34,6 +34,7 @@ type sessCfg struct {
 	Srv    []tcfg `json:"transports"`
 	QCache int    `json:"query_cache_size"`
 	APQ    int    `json:"apq_cache_size"`
+	Config scfg   `json:"config"`
 }
 
 type step struct {
@@ -64,6 +65,7 @@ func newSession(cfg *sessCfg) *session {
 	for _, t := range cfg.Srv {
 		srv.AddTransport(mkTransport(t))
 	}
+	applyCfg(srv, cfg.Config)
 	srv.SetQueryCache(lru.New[*ast.QueryDocument](cfg.QCache))
 	srv.Use(extension.AutomaticPersistedQuery{Cache: lru.New[string](cfg.APQ)})
 	return &session{cfg: cfg, es: es, srv: srv, reg: map[string]bool{}, seen: map[string]bool{}}
@@ -127,7 +129,9 @@ func reachesMutators(k kase) bool {
 // normalise makes a session request well-formed: APQ modes only where the envelope can carry them.
 func (s *session) normalise(k kase) kase {
 	k.srv = s.cfg.Srv
+	k.cfg = s.cfg.Config
 	k.qcache = true
+	k = k.effective() // the class of a text under the session's parser token limit
 	if !carriesEnvelope(k) || k.dec != "" {
 		k.apq = ""
 	}
@@ -307,6 +311,9 @@ func sessReq(r *rng.R, docs []doc) kase {
 func genSession(seed uint64, sid int) (*sessCfg, []kase) {
 	r := rng.New(seed*1000003 + uint64(sid)*7919 + 17)
 	cfg := &sessCfg{Srv: sessSrv(r), QCache: []int{1, 2, 16, 1000}[r.Below(4)], APQ: 4096}
+	if sid%3 == 2 { // every third session on a server with non-default error-path options
+		cfg.Config = randCfg(r)
+	}
 	docs := sessDocs(r)
 	n := 6 + r.Below(10)
 	reqs := make([]kase, n)
@@ -348,6 +355,7 @@ type jseq struct {
 	Name   string  `json:"name"`
 	Why    string  `json:"why"`
 	QCache int     `json:"query_cache_size"`
+	Config scfg    `json:"config"`
 	Steps  []jstep `json:"steps"`
 }
 
@@ -407,7 +415,7 @@ func sessions(seed uint64, n int, corpus string) {
 	defer runtime.GOMAXPROCS(prev)
 	for _, js := range loadCorpus(corpus) {
 		for _, qc := range []int{js.QCache, 1} {
-			cfg := &sessCfg{Name: js.Name, Srv: fullSrv("", false), QCache: qc, APQ: 4096}
+			cfg := &sessCfg{Name: js.Name, Srv: fullSrv("", false), QCache: qc, APQ: 4096, Config: js.Config}
 			ks := make([]kase, len(js.Steps))
 			for i, st := range js.Steps {
 				ks[i] = st.kase()
